@@ -110,10 +110,16 @@ def h_matrix_delta(ctx, q):
         ctx.claim('value', ctx.eq(val, v))
 
 
-def h_poly(ctx, n, power, scalar_shift):
+def h_poly(ctx, n, power, scalar_shift, int_shift=None):
     d = len(n)
     scale = ctx.real('scale')
-    if scalar_shift is None:
+    if int_shift is not None:
+        # integer shifts (list, or array of machine integers), negative or large powers:
+        # the values are those of exact arithmetic, not of wrapped int64 arithmetic
+        shift = np.array(int_shift, dtype=int) if scalar_shift == 'array' else \
+            (int_shift[0] if scalar_shift == 'scalar' else list(int_shift))
+        sh = [ctx.const(int(v)) for v in (int_shift if scalar_shift != 'scalar' else [int_shift[0]] * d)]
+    elif scalar_shift is None:
         shift = vec(ctx, 'sh', d)
         sh = list(shift)
     else:
@@ -208,6 +214,10 @@ def instances(tier):
         for power in (1, 2, 3):
             out.append({'func': 'h_poly', 'params': {'n': n, 'power': power, 'scalar_shift': None}})
         out.append({'func': 'h_poly', 'params': {'n': n, 'power': 2, 'scalar_shift': 1.5}})
+    for kind in ('array', 'list', 'scalar'):
+        # (values chosen so that float64 evaluates them exactly: constants are computed natively)
+        out.append({'func': 'h_poly', 'params': {'n': [2, 2], 'power': -1, 'scalar_shift': kind, 'int_shift': [1, 1]}})
+        out.append({'func': 'h_poly', 'params': {'n': [1, 1], 'power': 3, 'scalar_shift': kind, 'int_shift': [2 ** 31, -2 ** 22]}})
     for kind in ('rand', 'rand_norm', 'rand_stab'):
         for n, r in [([2, 3], 2), ([2, 2, 3], [1, 2, 3, 1]), ([3, 2, 2], 1)]:
             out.append({'func': 'h_rand', 'params': {'kind': kind, 'n': n, 'r': r, 'seed': 7}})
